@@ -15,9 +15,10 @@ import (
 
 // observer keeps the last emitted value of every query and returns only what changed.
 type observer struct {
-	c     *chain
-	last  map[string]string
-	order []string
+	c      *chain
+	deltas [][2]string // (query, value) pairs emitted by the last snapshot
+	last   map[string]string
+	order  []string
 	// entities to look at
 	recKeys  map[string]bool // "w|id|key"
 	recList  [][3]uint64     // wrk(1/0), id, key
@@ -50,13 +51,13 @@ func (o *observer) watchPair(r, s int) {
 	}
 }
 
-func vz(x *big.Int) string    { return "VZ " + coqZ(x) }
-func vzi(x int64) string      { return "VZ " + coqZi(x) }
-func vzu(x uint64) string     { return "VZ " + coqU64(x) }
-func vs(s string) string      { return "VS " + coqString(s) }
-func vl(xs []string) string   { return "VL " + coqStrList(xs) }
-func cb(b bool) string        { return coqBool(b) }
-func zi(i int) string         { return coqZi(int64(i)) }
+func vz(x *big.Int) string  { return "VZ " + coqZ(x) }
+func vzi(x int64) string    { return "VZ " + coqZi(x) }
+func vzu(x uint64) string   { return "VZ " + coqU64(x) }
+func vs(s string) string    { return "VS " + coqString(s) }
+func vl(xs []string) string { return "VL " + coqStrList(xs) }
+func cb(b bool) string      { return coqBool(b) }
+func zi(i int) string       { return coqZi(int64(i)) }
 func safely(f func()) (ok bool) {
 	defer func() {
 		if r := recover(); r != nil {
@@ -73,10 +74,12 @@ func (o *observer) snapshot(ctx sdk.Context) []string {
 	a := c.app
 	var out []string
 	o.fresh = map[string]bool{}
+	o.deltas = nil
 	emit := func(q, v string) {
 		if old, ok := o.last[q]; !ok || old != v {
 			o.last[q] = v
 			out = append(out, "("+q+", "+v+")")
+			o.deltas = append(o.deltas, [2]string{q, v})
 			if !ok {
 				o.fresh["("+q+", "+v+")"] = true
 			}
